@@ -250,6 +250,29 @@ def manual_cases(repo: Path) -> Iterator[Dict[str, Any]]:
                    inputs={"DS_1": str(base / "DataSet" / "input" / f"{num}-DS_1.csv")},
                    expected=str(base / "DataSet" / "output" / f"{num}-DS_r.csv"), vtl=str(base / "vtl" / f"RM{num}.vtl"),
                    types=tyd, ids=["Id_1", "Id_2", "Id_3"], meas=["Me_1"], keys=["Id_1", "Id_2", "Id_3", "ruleid"], values=vals)
+    # upstream issue #117 (tests/Bugs GL_117_3 / GL_117_4): expected outputs with NULL consequents AND a NULL antecedent
+    # (datapoint (code_1, 3, 3) under rule 3: Me_2 = NULL in `Me_2 = 2 and Me_3 = 1`) - the document the clause
+    # "NULL antecedent => NULL outcome" is taken from (spec/vtlref_validation.NULL_ANTECEDENT_SOURCES)
+    bugs = repo / "tests" / "Bugs" / "data"
+    ty117 = {"Id_1": "String", "Id_2": "Integer", "Id_3": "Integer", "Me_1": "String", "Me_2": "Integer", "Me_3": "Integer",
+             "Me_4": "String", "bool_var": "Boolean", "errorlevel": "Number", "ruleid": "String", "errorcode": "String"}
+    dpr117 = [dict(name=None, when=None, then=("cmp", "=", c("Me_4"), k("code_1")), erCode="CN0630", erLevel=3),
+              dict(name=None, when=("or", ("cmp", "=", c("Id_1"), k("code_1")), ("cmp", "=", c("Me_3"), k(1))),
+                   then=("cmp", "=", c("Me_4"), k("code_1")), erCode="CN0816", erLevel=3),
+              dict(name=None, when=("and", ("cmp", "=", c("Me_2"), k(2)), ("cmp", "=", c("Me_3"), k(1))),
+                   then=("cmp", "=", c("Id_1"), k("code_1")), erCode="CN0555", erLevel=3)]
+    m117 = ["Me_1", "Me_2", "Me_3", "Me_4"]
+    for code, output, vals in (("GL_117_3", "all", ["bool_var", "errorcode", "errorlevel"]),
+                               ("GL_117_4", "all_measures", m117 + ["bool_var", "errorcode", "errorlevel"])):
+        yield dict(kind="manual", cls=f"repository example {code} check_datapoint {output} (NULL consequent, NULL antecedent)",
+                   num=code, op="check_datapoint", rules=dpr117, output=output, params=["Id_1", "Id_2", "Id_3"] + m117,
+                   must_contain=['Me_4 = "code_1" errorcode "CN0630" errorlevel 3',
+                                 'when Id_1 = "code_1" or Me_3 = 1 then Me_4 = "code_1" errorcode "CN0816" errorlevel 3',
+                                 'when Me_2 = 2 and Me_3 = 1 then Id_1 = "code_1" errorcode "CN0555" errorlevel 3',
+                                 f"check_datapoint ( DS_1 , dprDefault {output})"],
+                   inputs={"DS_1": str(bugs / "DataSet" / "input" / f"{code}-1.csv")},
+                   expected=str(bugs / "DataSet" / "output" / f"{code}-1.csv"), vtl=str(bugs / "vtl" / f"{code}.vtl"),
+                   types=ty117, ids=["Id_1", "Id_2", "Id_3"], meas=m117, keys=["Id_1", "Id_2", "Id_3", "ruleid"], values=vals)
     hr11 = [dict(R("A", "=", "J+K+L", None, 5), name="R010"), dict(R("B", "=", "M+N+O", None, 5), name="R020"),
             dict(R("C", "=", "P+Q", "XX", 5), name="R030"), dict(R("D", "=", "R+S", None, 1), name="R040"),
             dict(R("E", "=", "T+U+V", None, 0), name="R050"), dict(R("F", "=", "Y+W+Z", None, 7), name="R060"),
@@ -284,7 +307,7 @@ def describe(c: Dict[str, Any]) -> str:
     import _valprograms as VP
     k = c["kind"] if c["kind"] != "manual" else c["op"]
     if k in ("dp", "check_datapoint"):
-        params = ["Id_3", "Me_1"] if c["kind"] == "manual" else (["Me_1", "Me_2", "Me_3", "Me_4"] if c.get("source") != "alias" else ["Me_1 as m1", "Me_2"])
+        params = (c.get("params") or ["Id_3", "Me_1"]) if c["kind"] == "manual" else (["Me_1", "Me_2", "Me_3", "Me_4"] if c.get("source") != "alias" else ["Me_1 as m1", "Me_2"])
         src = "DS_1[filter Id_1 > 2]" if c.get("source") == "filter" else "DS_1"
         return VP.show_dpr("dpr1", params, c["rules"]) + f"; DS_r <- check_datapoint({src}, dpr1 {c['output'] or ''})"
     if k == "check":
@@ -392,7 +415,7 @@ def run_manual(c: Dict[str, Any]) -> Dict[str, Any]:
     out["data"] = {t.name: t.rows for t in tables}
     op = c["op"]
     if op == "check_datapoint":
-        stmts = [VP.dp_ruleset_ast("dpr1", ["Id_3", "Me_1"], c["rules"]), P.assign("DS_r", VP.check_datapoint_ast("DS_1", "dpr1", c["output"]), False)]
+        stmts = [VP.dp_ruleset_ast("dpr1", c.get("params") or ["Id_3", "Me_1"], c["rules"]), P.assign("DS_r", VP.check_datapoint_ast("DS_1", "dpr1", c["output"]), False)]
     elif op == "check":
         stmts = [P.assign("DS_r", VP.check_ast(P.binop(P.var("DS_1"), ">=", P.var("DS_2")), None, None,
                                                P.binop(P.var("DS_1"), "-", P.var("DS_2")), False), False)]
